@@ -30,7 +30,29 @@ pub fn bvalue(v: &J) -> csl::Value {
 }
 fn pdata(n: u64) -> csl::PlutusData { csl::PlutusData::new_integer(&csl::BigInt::from_str(&n.to_string()).unwrap()) }
 
-struct Utxo { input: csl::TransactionInput, addr: csl::Address, addr_spec: J, value: csl::Value }
+// ---- scripts: Plutus script id s -> bytes s,s,.. (20+s of them), language 1 + s % 3; native script id k -> signature of key k
+pub fn plang(sid: u8) -> csl::Language { match sid % 3 { 0 => csl::Language::new_plutus_v1(), 1 => csl::Language::new_plutus_v2(), _ => csl::Language::new_plutus_v3() } }
+pub fn pscript(sid: u8) -> csl::PlutusScript { csl::PlutusScript::new_with_version(vec![sid; 20 + sid as usize], &plang(sid)) }
+fn exunits(e: &J) -> csl::ExUnits { csl::ExUnits::new(&csl::BigNum::from(e[0].as_u64().unwrap_or(1000)), &csl::BigNum::from(e[1].as_u64().unwrap_or(2000))) }
+fn redeemer(tag: &csl::RedeemerTag, rid: u64, ex: &J) -> csl::Redeemer { csl::Redeemer::new(tag, &csl::BigNum::from(0u64), &pdata(rid), &exunits(ex)) }
+/// the reference script a UTxO holds: {"plutus": s} | {"native": k}
+fn script_ref_of(r: &J) -> csl::ScriptRef {
+    if let Some(sid) = r.get("plutus") { csl::ScriptRef::new_plutus_script(&pscript(sid.as_u64().unwrap() as u8)) }
+    else { csl::ScriptRef::new_native_script(&mk::pubkey_script(r["native"].as_u64().unwrap() as u8)) }
+}
+fn cost_models(langs: &J) -> csl::Costmdls {
+    let mut c = csl::Costmdls::new();
+    for l in langs.as_array().unwrap() {
+        let v = l.as_u64().unwrap();
+        let mut cm = csl::CostModel::new();
+        for (i, x) in [197209i32 + v as i32, 0, 1, 23000, -5, 100].iter().enumerate() { cm.set(i, &csl::Int::new_i32(*x)).unwrap(); }
+        let lang = match v { 1 => csl::Language::new_plutus_v1(), 2 => csl::Language::new_plutus_v2(), _ => csl::Language::new_plutus_v3() };
+        c.insert(&lang, &cm);
+    }
+    c
+}
+
+struct Utxo { input: csl::TransactionInput, addr: csl::Address, addr_spec: J, value: csl::Value, spec: J }
 
 struct St {
     tb: csl::TransactionBuilder,
@@ -44,6 +66,10 @@ struct St {
     wd_signers: Vec<u8>,
     mint_signers: Vec<u8>,
     req_signers: Vec<u8>,
+    inputs: csl::TxInputsBuilder, // explicit inputs go through one running TxInputsBuilder + set_inputs (until a selection call)
+    selected: bool,
+    script_signers: Vec<u8>,      // keys of native scripts used by inputs / certs / withdrawals / votes
+    vote_signers: Vec<u8>,
 }
 
 fn config(pp: &J) -> Result<csl::TransactionBuilderConfig, csl::JsError> {
@@ -55,7 +81,8 @@ fn config(pp: &J) -> Result<csl::TransactionBuilderConfig, csl::JsError> {
         .max_value_size(g("maxval", 5000) as u32).max_tx_size(g("maxtx", 16384) as u32)
         .coins_per_utxo_byte(&csl::BigNum::from(g("cpb", 4310)))
         .prefer_pure_change(pp.get("prefer_pure_change").and_then(|x| x.as_bool()).unwrap_or(false))
-        .do_not_burn_extra_change(pp.get("no_burn").and_then(|x| x.as_bool()).unwrap_or(false));
+        .do_not_burn_extra_change(pp.get("no_burn").and_then(|x| x.as_bool()).unwrap_or(false))
+        .deduplicate_explicit_ref_inputs_with_regular_inputs(pp.get("dedup").and_then(|x| x.as_bool()).unwrap_or(false));
     if let Some(r) = pp.get("ref") {
         b = b.ref_script_coins_per_byte(&csl::UnitInterval::new(&csl::BigNum::from(r[0].as_u64().unwrap()), &csl::BigNum::from(r[1].as_u64().unwrap())));
     }
@@ -67,21 +94,60 @@ fn config(pp: &J) -> Result<csl::TransactionBuilderConfig, csl::JsError> {
     b.build()
 }
 
+/// native script "any of key k, key k+1"
+fn any2_script(k: u8) -> csl::NativeScript {
+    let mut ns = csl::NativeScripts::new();
+    ns.add(&mk::pubkey_script(k));
+    ns.add(&mk::pubkey_script(k + 1));
+    csl::NativeScript::new_script_any(&csl::ScriptAny::new(&ns))
+}
+fn baddr(v: &J) -> csl::Address {
+    match v["kind"].as_str().unwrap_or("ent") {
+        "any2_ent" => csl::EnterpriseAddress::new(v["net"].as_u64().unwrap_or(0) as u8, &csl::Credential::from_scripthash(&any2_script(v["k"].as_u64().unwrap() as u8).hash())).to_address(),
+        "plutus_ent" => csl::EnterpriseAddress::new(v["net"].as_u64().unwrap_or(0) as u8, &csl::Credential::from_scripthash(&pscript(v["s"].as_u64().unwrap() as u8).hash())).to_address(),
+        _ => mk::addr(v),
+    }
+}
+/// script source: "wit" | {"ref": u}
+fn plutus_source(st: &St, sid: u8, src: &J) -> csl::PlutusScriptSource {
+    match src.get("ref") {
+        Some(u) => { let x = &st.env[&u.as_u64().unwrap()]; csl::PlutusScriptSource::new_ref_input(&pscript(sid).hash(), &x.input, &plang(sid), csl::ScriptRef::new_plutus_script(&pscript(sid)).to_unwrapped_bytes().len()) }
+        None => csl::PlutusScriptSource::new(&pscript(sid)),
+    }
+}
+fn native_source(st: &St, k: u8, src: &J) -> csl::NativeScriptSource {
+    match src.get("ref") {
+        Some(u) => { let x = &st.env[&u.as_u64().unwrap()]; let ns = mk::pubkey_script(k); let mut s = csl::NativeScriptSource::new_ref_input(&ns.hash(), &x.input, csl::ScriptRef::new_native_script(&ns).to_unwrapped_bytes().len());
+                     let mut ks = csl::Ed25519KeyHashes::new(); ks.add(&mk::gkeyhash(k)); s.set_required_signers(&ks); s }
+        None => csl::NativeScriptSource::new(&mk::pubkey_script(k)),
+    }
+}
+/// Plutus witness for a use with redeemer id rid: {"s":sid,"rid":r,"script":src,"datum":"wit"|"inline"|"none"|{"ref":u},"dn":n,"ex":[m,s]}
+fn plutus_witness(st: &St, w: &J, tag: &csl::RedeemerTag) -> csl::PlutusWitness {
+    let sid = w["s"].as_u64().unwrap() as u8;
+    let red = redeemer(tag, w["rid"].as_u64().unwrap(), &w["ex"]);
+    let src = plutus_source(st, sid, &w["script"]);
+    let d = &w["datum"];
+    if d.as_str() == Some("wit") { csl::PlutusWitness::new_with_ref(&src, &csl::DatumSource::new(&pdata(w["dn"].as_u64().unwrap_or(0))), &red) }
+    else if let Some(u) = d.get("ref") { csl::PlutusWitness::new_with_ref(&src, &csl::DatumSource::new_ref_input(&st.env[&u.as_u64().unwrap()].input), &red) }
+    else { csl::PlutusWitness::new_with_ref_without_datum(&src, &red) }
+}
+
 fn owner_of(spec: &J) -> (bool, u8) {
     let k = spec["k"].as_u64().unwrap_or(1) as u8;
     (spec["kind"].as_str() == Some("byron"), k)
 }
 
 fn output_of(o: &J) -> Result<csl::TransactionOutput, csl::JsError> {
-    let mut out = csl::TransactionOutput::new(&mk::addr(&o["to"]), &bvalue(&o["value"]));
+    let mut out = csl::TransactionOutput::new(&baddr(&o["to"]), &bvalue(&o["value"]));
     if let Some(d) = o.get("datum") {
         if let Some(h) = d.get("hash") { out.set_data_hash(&csl::hash_plutus_data(&pdata(h.as_u64().unwrap()))); }
         if let Some(i) = d.get("inline") { out.set_plutus_data(&pdata(i.as_u64().unwrap())); }
         if let Some(n) = d.get("inline_bytes") { out.set_plutus_data(&csl::PlutusData::new_bytes(vec![7u8; n.as_u64().unwrap() as usize])); }
     }
     if let Some(r) = o.get("ref_script") {
-        let ns = mk::pubkey_script(r.as_u64().unwrap() as u8);
-        out.set_script_ref(&csl::ScriptRef::new_native_script(&ns));
+        if r.is_object() { out.set_script_ref(&script_ref_of(r)); }
+        else { out.set_script_ref(&csl::ScriptRef::new_native_script(&mk::pubkey_script(r.as_u64().unwrap() as u8))); }
     }
     Ok(out)
 }
@@ -112,43 +178,150 @@ fn apply(st: &mut St, op: &J) -> Result<Map<String, J>, csl::JsError> {
         "AddInput" => {
             let u = op["u"].as_u64().unwrap();
             let x = &st.env[&u];
-            st.tb.add_regular_input(&x.addr, &x.input, &x.value)?;
+            if st.selected { st.tb.add_regular_input(&x.addr, &x.input, &x.value)?; }
+            else { st.inputs.add_regular_input(&x.addr, &x.input, &x.value)?; st.tb.set_inputs(&st.inputs); }
             st.inputs_builder_signers.insert(u, owner_of(&x.addr_spec));
+        }
+        "AddPlutusInput" => {
+            let u = op["u"].as_u64().unwrap();
+            let w = plutus_witness(st, &op["w"], &csl::RedeemerTag::new_spend());
+            let x = &st.env[&u];
+            if st.selected { st.tb.add_plutus_script_input(&w, &x.input, &x.value); }
+            else { st.inputs.add_plutus_script_input(&w, &x.input, &x.value); st.tb.set_inputs(&st.inputs); }
+            let sid = op["w"]["s"].as_u64().unwrap() as u8;
+            res.insert("attach".into(), json!([{"rid": op["w"]["rid"], "purpose": 0, "item": jbytes(&x.input.to_bytes()), "sh": jbytes(&pscript(sid).hash().to_bytes()),
+                "lang": pscript(sid).language_version().kind() as u64 + 1, "db": jbytes(&pdata(match op["w"]["datum"].get("ref") { Some(_) => 777, None => op["w"]["dn"].as_u64().unwrap_or(0) }).to_bytes())}]));
+        }
+        "AddAny2Input" => {
+            // input locked by any-of(k, k+1); the caller declares which of the two keys will sign for THIS input
+            let u = op["u"].as_u64().unwrap();
+            let k = st.env[&u].addr_spec["k"].as_u64().unwrap() as u8;
+            let signer = op["signer"].as_u64().unwrap() as u8;
+            let mut src = csl::NativeScriptSource::new(&any2_script(k));
+            let mut ks = csl::Ed25519KeyHashes::new();
+            ks.add(&mk::gkeyhash(signer));
+            src.set_required_signers(&ks);
+            let x = &st.env[&u];
+            if st.selected { return Err(csl::JsError::from_str("harness: any2 input after selection is not expressible")); }
+            st.inputs.add_native_script_input(&src, &x.input, &x.value);
+            st.tb.set_inputs(&st.inputs);
+            st.script_signers.push(signer);
+            res.insert("declared_signer".into(), jbytes(&mk::gkeyhash(signer).to_bytes()));
+        }
+        "AddNativeInput" => {
+            let u = op["u"].as_u64().unwrap();
+            let k = st.env[&u].addr_spec["k"].as_u64().unwrap() as u8;
+            let src = native_source(st, k, &op["script"]);
+            let x = &st.env[&u];
+            if st.selected {
+                if op["script"].get("ref").is_some() { return Err(csl::JsError::from_str("harness: native reference input after selection is not expressible")); }
+                st.tb.add_native_script_input(&mk::pubkey_script(k), &x.input, &x.value);
+            } else { st.inputs.add_native_script_input(&src, &x.input, &x.value); st.tb.set_inputs(&st.inputs); }
+            st.script_signers.push(k);
+        }
+        "AddRefInput" => {
+            let x = &st.env[&op["u"].as_u64().unwrap()];
+            match op.get("size").and_then(|v| v.as_u64()) { Some(n) => st.tb.add_script_reference_input(&x.input, n as usize), None => st.tb.add_reference_input(&x.input) }
+        }
+        "AddExtraDatum" => st.tb.add_extra_witness_datum(&pdata(op["n"].as_u64().unwrap())),
+        "CalcScriptDataHash" => st.tb.calc_script_data_hash(&cost_models(&op["langs"]))?,
+        "SetVotes" => {
+            let mut vb = csl::VotingBuilder::new();
+            let mut attach = vec![];
+            let mut signers = vec![];
+            for v in op["votes"].as_array().unwrap() {
+                let kind = v["kind"].as_str().unwrap();
+                let voter = match kind {
+                    "drep_key" => csl::Voter::new_drep_credential(&mk::gcred(v["k"].as_u64().unwrap() as u8)),
+                    "cc_key" => csl::Voter::new_constitutional_committee_hot_credential(&mk::gcred(v["k"].as_u64().unwrap() as u8)),
+                    "spo" => csl::Voter::new_stake_pool_key_hash(&mk::gkeyhash(v["k"].as_u64().unwrap() as u8)),
+                    "drep_script" => csl::Voter::new_drep_credential(&csl::Credential::from_scripthash(&pscript(v["w"]["s"].as_u64().unwrap() as u8).hash())),
+                    _ => csl::Voter::new_constitutional_committee_hot_credential(&csl::Credential::from_scripthash(&pscript(v["w"]["s"].as_u64().unwrap() as u8).hash())),
+                };
+                let gid = csl::GovernanceActionId::new(&csl::TransactionHash::from_bytes(mk::h32(v["act"].as_u64().unwrap_or(1) as u8)).unwrap(), 0);
+                let proc_ = csl::VotingProcedure::new(csl::VoteKind::Yes);
+                if kind.ends_with("_script") {
+                    vb.add_with_plutus_witness(&voter, &gid, &proc_, &plutus_witness(st, &v["w"], &csl::RedeemerTag::new_vote()))?;
+                    { let sid = v["w"]["s"].as_u64().unwrap() as u8; attach.push(json!({"rid": v["w"]["rid"], "purpose": 4, "item": jbytes(&voter.to_bytes()), "sh": jbytes(&pscript(sid).hash().to_bytes()), "lang": pscript(sid).language_version().kind() as u64 + 1, "db": []})); }
+                } else { vb.add(&voter, &gid, &proc_)?; signers.push(v["k"].as_u64().unwrap() as u8); }
+            }
+            st.tb.set_voting_builder(&vb);
+            st.vote_signers = signers;
+            res.insert("attach".into(), J::Array(attach));
         }
         "AddOutput" => { st.tb.add_output(&output_of(op)?)?; }
         "SetCerts" => {
             let mut cb = csl::CertificatesBuilder::new();
             let mut signers = vec![];
+            let mut attach = vec![];
+            let mut script_signers = vec![];
             for c in op["certs"].as_array().unwrap() {
+                if let Some(w) = c.get("pw") {
+                    // credential = hash of Plutus script w.s; certificate witnessed by a Plutus witness with redeemer id w.rid
+                    let mut c2 = c.clone();
+                    c2["cred"] = json!({"t": 1, "hb": jbytes(&pscript(w["s"].as_u64().unwrap() as u8).hash().to_bytes())});
+                    let cert = mk::cert(&c2);
+                    cb.add_with_plutus_witness(&cert, &plutus_witness(st, w, &csl::RedeemerTag::new_cert()))?;
+                    { let sid = w["s"].as_u64().unwrap() as u8; attach.push(json!({"rid": w["rid"], "purpose": 2, "item": jbytes(&cert.to_bytes()), "sh": jbytes(&pscript(sid).hash().to_bytes()), "lang": pscript(sid).language_version().kind() as u64 + 1, "db": []})); }
+                    continue;
+                }
+                if let Some(nk) = c.get("nw") {
+                    let k = nk.as_u64().unwrap() as u8;
+                    let mut c2 = c.clone();
+                    c2["cred"] = json!({"t": 1, "hb": jbytes(&mk::pubkey_script(k).hash().to_bytes())});
+                    cb.add_with_native_script(&mk::cert(&c2), &csl::NativeScriptSource::new(&mk::pubkey_script(k)))?;
+                    script_signers.push(k);
+                    continue;
+                }
                 cb.add(&mk::cert(c))?;
                 let k = c["k"].as_u64().unwrap();
                 let ck = c["cred"]["k"].as_u64().unwrap_or(1) as u8;
                 match k { 0 | 5 | 6 => {}, 3 | 4 => signers.push(c["pool"].as_u64().unwrap_or(7) as u8), _ => signers.push(ck) }
             }
+            signers.extend(script_signers);
+            res.insert("attach".into(), J::Array(attach));
             st.tb.set_certs_builder(&cb);
             st.cert_signers = signers;
         }
         "SetWithdrawals" => {
             let mut wb = csl::WithdrawalsBuilder::new();
             let mut signers = vec![];
+            let mut attach = vec![];
             for w in op["wds"].as_array().unwrap() {
+                if let Some(pw) = w.get("pw") {
+                    let ra = csl::RewardAddress::new(w["net"].as_u64().unwrap_or(0) as u8, &csl::Credential::from_scripthash(&pscript(pw["s"].as_u64().unwrap() as u8).hash()));
+                    wb.add_with_plutus_witness(&ra, &bn_of(&w["amt_n"]), &plutus_witness(st, pw, &csl::RedeemerTag::new_reward()))?;
+                    { let sid = pw["s"].as_u64().unwrap() as u8; attach.push(json!({"rid": pw["rid"], "purpose": 3, "item": jbytes(&ra.to_address().to_bytes()), "sh": jbytes(&pscript(sid).hash().to_bytes()), "lang": pscript(sid).language_version().kind() as u64 + 1, "db": []})); }
+                    continue;
+                }
                 let k = w["k"].as_u64().unwrap() as u8;
                 wb.add(&csl::RewardAddress::new(w["net"].as_u64().unwrap_or(0) as u8, &mk::gcred(k)), &bn_of(&w["amt_n"]))?;
                 signers.push(k);
             }
+            res.insert("attach".into(), J::Array(attach));
             st.tb.set_withdrawals_builder(&wb);
             st.wd_signers = signers;
         }
         "SetMint" => {
             let mut mb = csl::MintBuilder::new();
             let mut signers = vec![];
+            let mut attach = vec![];
             for m in op["mints"].as_array().unwrap() {
+                let amt = if m["amt"]["neg"].as_bool().unwrap() { csl::Int::new_negative(&bn_of(&m["amt"]["mag_n"])) } else { csl::Int::new(&bn_of(&m["amt"]["mag_n"])) };
+                if let Some(pw) = m.get("pw") {
+                    let sid = pw["s"].as_u64().unwrap() as u8;
+                    let w = csl::MintWitness::new_plutus_script(&plutus_source(st, sid, &pw["script"]), &redeemer(&csl::RedeemerTag::new_mint(), pw["rid"].as_u64().unwrap(), &pw["ex"]));
+                    mb.add_asset(&w, &csl::AssetName::new(get_bytes(&m["n"])).unwrap(), &amt)?;
+                    attach.push(json!({"rid": pw["rid"], "purpose": 1, "item": jbytes(&pscript(sid).hash().to_bytes()), "sh": jbytes(&pscript(sid).hash().to_bytes()), "lang": pscript(sid).language_version().kind() as u64 + 1, "db": []}));
+                    continue;
+                }
                 let k = m["mp"].as_u64().unwrap() as u8;
                 let w = csl::MintWitness::new_native_script(&csl::NativeScriptSource::new(&mk::pubkey_script(k)));
                 let amt = if m["amt"]["neg"].as_bool().unwrap() { csl::Int::new_negative(&bn_of(&m["amt"]["mag_n"])) } else { csl::Int::new(&bn_of(&m["amt"]["mag_n"])) };
                 mb.add_asset(&w, &csl::AssetName::new(get_bytes(&m["n"])).unwrap(), &amt)?;
                 signers.push(k);
             }
+            res.insert("attach".into(), J::Array(attach));
             st.tb.set_mint_builder(&mb);
             st.mint_signers = signers;
         }
@@ -172,6 +345,7 @@ fn apply(st: &mut St, op: &J) -> Result<Map<String, J>, csl::JsError> {
         "AddInputsFrom" | "AddInputsFromAndChange" | "AddInputsFromAndChangeWithCollateralReturn" => {
             let us = utxos_of(st, &op["us"]);
             hook::set_seed(op["seed"].as_u64().unwrap_or(1));
+            st.selected = true;
             let before: BTreeSet<u64> = st.inputs_builder_signers.keys().cloned().collect();
             let r = match name {
                 "AddInputsFrom" => st.tb.add_inputs_from(&us, strategy(op["strat"].as_str().unwrap())).map(|_| true),
@@ -214,7 +388,8 @@ fn sign(st: &St, tx: &csl::Transaction) -> Result<Vec<u8>, csl::JsError> {
     let ins = body.inputs();
     for i in 0..ins.len() { add_owner(&ins.get(i), &mut vk, &mut by); }
     if let Some(col) = body.collateral() { for i in 0..col.len() { add_owner(&col.get(i), &mut vk, &mut by); } }
-    for k in st.cert_signers.iter().chain(st.wd_signers.iter()).chain(st.mint_signers.iter()).chain(st.req_signers.iter()) { vk.insert(*k); }
+    for k in st.cert_signers.iter().chain(st.wd_signers.iter()).chain(st.mint_signers.iter()).chain(st.req_signers.iter())
+        .chain(st.script_signers.iter()).chain(st.vote_signers.iter()) { vk.insert(*k); }
     let mut ft = csl::FixedTransaction::from_bytes(tx.to_bytes())?;
     for k in vk.iter() { ft.sign_and_add_vkey_signature(&mk::sk(*k))?; }
     for k in by.iter() { ft.sign_and_add_icarus_bootstrap_signature(&mk::byron_addr(*k, 764824073), &mk::bip32(*k))?; }
@@ -258,23 +433,40 @@ pub fn run_one(out: &mut Out, sc: usize, s: &J) {
     let cfg = match call(|| config(&s["pp"])) { Outcome::Ok(c) => c, _ => { out.ev(json!({"ev": "SetupErr", "sc": sc})); return; } };
     let mut st = St { tb: csl::TransactionBuilder::new(&cfg), env: BTreeMap::new(), collateral: csl::TxInputsBuilder::new(),
         vkeys: BTreeSet::new(), byrons: BTreeSet::new(), inputs_builder_signers: BTreeMap::new(),
-        cert_signers: vec![], wd_signers: vec![], mint_signers: vec![], req_signers: vec![] };
+        cert_signers: vec![], wd_signers: vec![], mint_signers: vec![], req_signers: vec![], inputs: csl::TxInputsBuilder::new(), selected: false, script_signers: vec![], vote_signers: vec![] };
     let mut env_j = vec![];
     let mut key_ids: BTreeSet<u8> = BTreeSet::new();
     for u in s["utxo"].as_array().unwrap() {
         let id = u["u"].as_u64().unwrap();
         let input = mk::txin(u.get("tx").and_then(|x| x.as_u64()).unwrap_or(id) as u8, u.get("ix").and_then(|x| x.as_u64()).unwrap_or(0) as u32);
-        let addr = mk::addr(&u["addr"]);
+        let addr = baddr(&u["addr"]);
         let value = bvalue(&u["value"]);
-        env_j.push(json!({"u": id, "txid": jbytes(&input.transaction_id().to_bytes()), "ix": input.index(), "addr": jbytes(&addr.to_bytes()),
-                          "kind": u["addr"]["kind"].as_str().unwrap_or("ent"), "value": jvalue(&value)}));
+        let mut ej = json!({"u": id, "txid": jbytes(&input.transaction_id().to_bytes()), "ix": input.index(), "addr": jbytes(&addr.to_bytes()),
+                          "kind": u["addr"]["kind"].as_str().unwrap_or("ent"), "value": jvalue(&value)});
+        // what the spent / referenced output carries besides its value
+        if let Some(d) = u.get("datum") {
+            if let Some(h) = d.get("hash") { ej["datum_hash"] = jbytes(&csl::hash_plutus_data(&pdata(h.as_u64().unwrap())).to_bytes()); }
+            if let Some(i) = d.get("inline") { ej["inline_datum"] = jbytes(&pdata(i.as_u64().unwrap()).to_bytes()); }
+        }
+        if let Some(r) = u.get("ref_script") {
+            let sr = script_ref_of(r);
+            ej["ref_script_hash"] = jbytes(&match r.get("plutus") { Some(sid) => pscript(sid.as_u64().unwrap() as u8).hash(), None => mk::pubkey_script(r["native"].as_u64().unwrap() as u8).hash() }.to_bytes());
+            // the size the LEDGER charges for (originalBytesSize): the Plutus binary itself, or the native script's CBOR;
+            // callers declare ScriptRef::to_unwrapped_bytes().len() to the builder, as the library does for UTxO-based inputs (4 bytes more)
+            let _ = sr;
+            ej["ref_script_size"] = json!(match r.get("plutus") { Some(sid) => pscript(sid.as_u64().unwrap() as u8).bytes().len(), None => mk::pubkey_script(r["native"].as_u64().unwrap() as u8).to_bytes().len() });
+        }
+        env_j.push(ej);
         key_ids.insert(u["addr"]["k"].as_u64().unwrap_or(1) as u8);
-        st.env.insert(id, Utxo { input, addr, addr_spec: u["addr"].clone(), value });
+        st.env.insert(id, Utxo { input, addr, addr_spec: u["addr"].clone(), value, spec: u.clone() });
     }
     // key table: id -> vkey, hash (the orchestrator re-checks hash = blake2b-224(vkey) with hashlib)
     let keys: Vec<J> = (1u8..=24).map(|k| { let (vk, h) = mk::pubinfo(k); json!({"k": k, "vkey": jbytes(&vk), "hash": jbytes(&h)}) }).collect();
     let byr: Vec<J> = key_ids.iter().map(|k| { let a = mk::byron_addr(*k, 764824073); json!({"k": k, "addr": jbytes(&a.to_address().to_bytes()), "vkey": jbytes(&mk::bip32(*k).to_public().as_bytes()[..32])}) }).collect();
-    out.ev(json!({"ev": "Reset", "sc": sc, "pp": s["pp"], "utxo": env_j, "keys": keys, "byron": byr}));
+    // script table (hash re-checked by the orchestrator with hashlib): Plutus ids 1..6, native ids 1..12; datum table
+    let mut scripts: Vec<J> = (1u8..=6).map(|sid| { let ps = pscript(sid); json!({"id": sid, "kind": "plutus", "lang": ps.language_version().kind() as u64 + 1, "bytes": jbytes(&ps.bytes()), "hash": jbytes(&ps.hash().to_bytes())}) }).collect();
+    scripts.extend((1u8..=12).map(|k| { let ns = mk::pubkey_script(k); json!({"id": k, "kind": "native", "lang": 0, "bytes": jbytes(&ns.to_bytes()), "hash": jbytes(&ns.hash().to_bytes())}) }));
+    out.ev(json!({"ev": "Reset", "sc": sc, "pp": s["pp"], "utxo": env_j, "keys": keys, "byron": byr, "scripts": scripts}));
     let _ = (&st.vkeys, &st.byrons);
     for (i, op) in s["ops"].as_array().unwrap().iter().enumerate() {
         let name = op["op"].as_str().unwrap();
@@ -306,7 +498,7 @@ pub fn run_one(out: &mut Out, sc: usize, s: &J) {
         let r = call(|| apply(&mut st, op)).to_json(|m| m);
         // the op is logged with its arguments resolved to wire values where the validator needs them
         let mut ev = json!({"ev": "Op", "sc": sc, "i": i, "op": name, "r": r});
-        for k in ["n", "pct_n"] { if let Some(v) = op.get(k) { ev[k] = v.clone(); } }
+        for k in ["n", "pct_n", "langs"] { if let Some(v) = op.get(k) { ev[k] = v.clone(); } }
         out.ev(ev);
     }
 }
@@ -435,7 +627,123 @@ pub fn gen(rng: &mut Rng) -> J {
     json!({"pp": pp, "utxo": utxo, "ops": ops})
 }
 
+/// Plutus / native-script scenarios: script-locked inputs, Plutus mints, script certificates / withdrawals / votes, reference
+/// inputs holding scripts or datums, extra datums, in a random order of issuing; every script use carries a unique redeemer id
+pub fn gen_plutus(rng: &mut Rng) -> J {
+    let mut utxo = vec![];
+    let mut ops: Vec<J> = vec![];
+    let mut next_u = 1u64;
+    let mut rid = 100u64;
+    let mut new_u = |utxo: &mut Vec<J>, mut e: J, rng: &mut Rng| -> u64 { let u = next_u; next_u += 1; e["u"] = json!(u); e["tx"] = json!((u * 7) % 41 + 1); e["ix"] = json!(rng.below(4)); utxo.push(e); u };
+    let ex = |rng: &mut Rng| json!([rng.below(2_000_000), rng.below(500_000_000)]);
+    // funding and collateral
+    // sometimes the spent funding output itself holds a reference script: the caller declares it (with its size) as a script
+    // reference input and lets the builder drop the duplicate from the reference inputs
+    let spent_holds_script = rng.chance(1, 4);
+    let mut f1e = json!({"addr": {"kind": "ent", "k": 1}, "value": {"coin_n": jn(50_000_000 + rng.below(1 << 33)), "assets": []}});
+    if spent_holds_script { f1e["ref_script"] = if rng.chance(1, 2) { json!({"plutus": 6}) } else { json!({"native": 11}) }; }
+    let f1 = new_u(&mut utxo, f1e.clone(), rng);
+    if spent_holds_script {
+        let size = script_ref_of(&f1e["ref_script"]).to_unwrapped_bytes().len();
+        ops.push(json!({"op": "AddRefInput", "u": f1, "size": size}));
+    }
+    let col = new_u(&mut utxo, json!({"addr": {"kind": *rng.pick(&["ent", "byron"]), "k": 2}, "value": {"coin_n": jn(6_000_000), "assets": []}}), rng);
+    ops.push(json!({"op": "AddInput", "u": f1}));
+    // script sources: each Plutus script id is consistently provided by witness or by one reference UTxO
+    let mut src: std::collections::BTreeMap<u64, J> = std::collections::BTreeMap::new();
+    for sid in 1..=5u64 {
+        if rng.chance(1, 2) { let r = new_u(&mut utxo, json!({"addr": {"kind": "ent", "k": 9}, "value": {"coin_n": jn(20_000_000), "assets": []}, "ref_script": {"plutus": sid}}), rng); src.insert(sid, json!({"ref": r})); }
+        else { src.insert(sid, json!("wit")); }
+    }
+    let datum_ref = new_u(&mut utxo, json!({"addr": {"kind": "ent", "k": 9}, "value": {"coin_n": jn(3_000_000), "assets": []}, "datum": {"inline": 777}}), rng);
+    let nsp = rng.below(4);
+    for _ in 0..nsp {
+        let sid = 1 + rng.below(4);
+        let dn = *rng.pick(&[500u64, 501, 502]);
+        let dk = rng.below(3);
+        let mut e = json!({"addr": {"kind": "plutus_ent", "s": sid}, "value": {"coin_n": jn(2_000_000 + rng.below(5_000_000)), "assets": []}});
+        let datum = match dk { 0 => { e["datum"] = json!({"hash": dn}); json!("wit") } 1 => { e["datum"] = json!({"inline": dn}); json!("none") } _ => { e["datum"] = json!({"hash": 777}); json!({"ref": datum_ref}) } };
+        let u = new_u(&mut utxo, e, rng);
+        rid += 1;
+        ops.push(json!({"op": "AddPlutusInput", "u": u, "w": {"s": sid, "rid": rid, "script": src[&sid], "datum": datum, "dn": dn, "ex": ex(rng)}}));
+    }
+    if rng.chance(1, 3) {
+        let k = 3 + rng.below(3);
+        let u = new_u(&mut utxo, json!({"addr": {"kind": "script_ent", "k": k}, "value": {"coin_n": jn(3_000_000), "assets": []}}), rng);
+        let script = if rng.chance(1, 3) { let r = new_u(&mut utxo, json!({"addr": {"kind": "ent", "k": 9}, "value": {"coin_n": jn(20_000_000), "assets": []}, "ref_script": {"native": k}}), rng); json!({"ref": r}) } else { json!("wit") };
+        ops.push(json!({"op": "AddNativeInput", "u": u, "script": script}));
+    }
+    if rng.chance(1, 5) {
+        // two outputs locked by the same any-of script, spent with different declared signers
+        let k = 13;
+        for signer in [k, k + 1] {
+            let u = new_u(&mut utxo, json!({"addr": {"kind": "any2_ent", "k": k}, "value": {"coin_n": jn(2_500_000), "assets": []}}), rng);
+            ops.push(json!({"op": "AddAny2Input", "u": u, "signer": signer}));
+        }
+    }
+    if rng.chance(1, 2) {
+        let n = 1 + rng.below(3);
+        let mut sids: Vec<u64> = vec![1, 2, 3, 4, 5];
+        let mut mints = vec![];
+        for _ in 0..n {
+            if rng.chance(1, 4) { mints.push(json!({"mp": 9, "n": [66], "amt": {"neg": false, "mag_n": jn(5)}})); continue; }
+            let sid = sids.remove(rng.below(sids.len() as u64) as usize);
+            rid += 1;
+            mints.push(json!({"n": [65], "amt": {"neg": false, "mag_n": jn(1 + rng.below(9))}, "pw": {"s": sid, "rid": rid, "script": src[&sid], "ex": ex(rng)}}));
+        }
+        ops.push(json!({"op": "SetMint", "mints": mints}));
+    }
+    if rng.chance(1, 2) {
+        let n = 1 + rng.below(3);
+        let mut certs = vec![];
+        for i in 0..n {
+            let kind = *rng.pick(&[1u64, 2, 7, 8, 9, 16, 17, 18]);
+            match rng.below(3) {
+                0 => { let sid = 1 + rng.below(5); rid += 1; certs.push(json!({"k": kind, "g": true, "pool": 20 + i, "coin_n": jn(2_000_000), "pw": {"s": sid, "rid": rid, "script": src[&sid], "datum": "none", "ex": ex(rng)}})); }
+                1 => certs.push(json!({"k": kind, "g": true, "pool": 20 + i, "coin_n": jn(2_000_000), "nw": 6 + i})),
+                _ => certs.push(json!({"k": kind, "g": true, "pool": 20 + i, "coin_n": jn(2_000_000), "cred": {"k": 5 + i}})),
+            }
+        }
+        ops.push(json!({"op": "SetCerts", "certs": certs}));
+    }
+    if rng.chance(1, 2) {
+        let n = 1 + rng.below(3);
+        let mut sids: Vec<u64> = vec![1, 2, 3, 4, 5];
+        let mut wds = vec![];
+        for i in 0..n {
+            if rng.chance(1, 3) { wds.push(json!({"k": 6 + i, "amt_n": jn(100 + i)})); continue; }
+            let sid = sids.remove(rng.below(sids.len() as u64) as usize);
+            rid += 1;
+            wds.push(json!({"amt_n": jn(1000 + i), "pw": {"s": sid, "rid": rid, "script": src[&sid], "datum": "none", "ex": ex(rng)}}));
+        }
+        ops.push(json!({"op": "SetWithdrawals", "wds": wds}));
+    }
+    if rng.chance(1, 4) {
+        let mut votes = vec![json!({"kind": *rng.pick(&["drep_key", "cc_key", "spo"]), "k": 7, "act": 1})];
+        if rng.chance(1, 2) { let sid = 1 + rng.below(5); rid += 1; votes.push(json!({"kind": *rng.pick(&["drep_script", "cc_script"]), "act": 2, "w": {"s": sid, "rid": rid, "script": src[&sid], "datum": "none", "ex": ex(rng)}})); }
+        ops.push(json!({"op": "SetVotes", "votes": votes}));
+    }
+    if rng.chance(1, 3) { ops.push(json!({"op": "AddExtraDatum", "n": *rng.pick(&[500u64, 501, 900])})); }
+    if rng.chance(1, 5) { ops.push(json!({"op": "AddExtraDatum", "n": 900})); }
+    if rng.chance(1, 4) { ops.push(json!({"op": "AddRequiredSigner", "k": 1 + rng.below(4)})); }
+    if rng.chance(1, 4) { ops.push(json!({"op": "AddRefInput", "u": datum_ref})); }
+    if rng.chance(1, 3) { ops.push(json!({"op": "AddOutput", "to": {"kind": "ent", "k": 11}, "value": {"coin_n": jn(1_500_000), "assets": []}})); }
+    for i in (1..ops.len()).rev() { let j = rng.below(i as u64 + 1) as usize; ops.swap(i, j); }
+    ops.push(json!({"op": "AddCollateral", "u": col}));
+    ops.push(json!({"op": "CalcScriptDataHash", "langs": [1, 2, 3]}));
+    let to = json!({"kind": "ent", "k": 15});
+    if rng.chance(1, 3) { ops.push(json!({"op": "SetTotalCollateralAndReturn", "to": to, "n": jn(1_000_000 + rng.below(3_000_000))})); }
+    ops.push(json!({"op": "AddChange", "to": to}));
+    ops.push(json!({"op": "Build"}));
+    if rng.chance(1, 3) { ops.push(json!({"op": "BuildAgain"})); }
+    let pp = json!({"a": 44, "b": 155381, "cpb": 4310, "maxval": 5000, "maxtx": 16384, "kd_n": jn(2_000_000), "pd_n": jn(500_000_000),
+                    "ex": [577, 10000, 721, 10000000], "ref": [*rng.pick(&[15u64, 15, 0, 44]), 1], "dedup": spent_holds_script});
+    json!({"pp": pp, "utxo": utxo, "ops": ops})
+}
+
 pub fn main(a: &Args) {
+    let plutus_only = a.flags.iter().any(|f| f == "--plutus");
+    if plutus_only { return drive(a, |rng, _| gen_plutus(rng), |out, sc, s| run_one(out, sc, s)); }
     let minada_only = a.flags.iter().any(|f| f == "--minada");
     drive(a, |rng, i| if minada_only || i % 8 == 7 { gen_minada(rng) } else { gen(rng) }, |out, sc, s| run_one(out, sc, s));
 }
